@@ -38,10 +38,6 @@ Definition panic_allow : list allow := [
     (Unreachable "as ordinal 0, for the 'apiGroup cannot be found in roleRef' error");
   mkAllow (mkSite "api/filters/nameref" "getRoleRefGvk" SkMustCall 2)
     (Unreachable "as ordinal 0, for the 'kind cannot be found in roleRef' error");
-  mkAllow (mkSite "api/filters/nameref" "Filter.failureDetails" SkMustCall 0)
-    (KnownFinding "exit:log.Fatal:api/resource.(*Resource).MustYaml<-api/filters/nameref.Filter.failureDetails");
-  mkAllow (mkSite "api/filters/nameref" "Filter.failureDetails" SkMustCall 1)
-    (KnownFinding "exit:log.Fatal:api/resource.(*Resource).MustYaml<-api/filters/nameref.Filter.failureDetails");
   (* ---- api/internal/accumulator ---- *)
   mkAllow (mkSite "api/internal/accumulator" "newNameReferenceTransformer" SkFatal 0)
     (Unreachable "argument is ra.tConfig.NameReference after KustTarget.accumulateTarget merged builtinconfig.MakeDefaultConfig(), whose nameReference table is non-empty (Gen table); a merge never yields nil");
@@ -57,7 +53,7 @@ Definition panic_allow : list allow := [
   mkAllow (mkSite "api/resmap" "(*Factory).FromResource" SkPanic 0)
     (Unreachable "newResMapFromResourceSlice of a ONE-element slice: resWrangler.Append only fails on an id already present");
   mkAllow (mkSite "api/resmap" "(*Factory).FromResourceSlice" SkPanic 0)
-    (KnownFinding "panic:api/resmap.(*Factory).FromResourceSlice:explicit-may-not-add");
+    (Unreachable "since fix Z-ignorelocal KustTarget.IgnoreLocal (its only caller in the closure) appends the resources itself and returns the id conflict as an error; witness n2 is a regression input");
   (* ---- api/resource ---- *)
   mkAllow (mkSite "api/resource" "(*Factory).makeOne" SkFatal 0)
     (Unreachable "callers pass yaml.FromMap's result after its error check, nodes that survived DropLocalNodes/dropBadNodes (IsNilOrEmpty filtered), or generators.MakeConfigMap/MakeSecret results after their error check: never nil");
@@ -68,7 +64,7 @@ Definition panic_allow : list allow := [
   mkAllow (mkSite "api/resource" "(*Resource).enable" SkPanic 0)
     (KnownFinding "panic:api/resource.(*Resource).enable:explicit-wrong-node-kind");
   mkAllow (mkSite "api/resource" "(*Resource).MustYaml" SkFatal 0)
-    (KnownFinding "exit:log.Fatal:api/resource.(*Resource).MustYaml<-api/filters/nameref.Filter.failureDetails");
+    (Unreachable "since fix Z-nameref nameref.Filter.failureDetails (its only callers in the closure) renders with AsYAML and shows the marshalling error; witness n14 is a regression input");
   mkAllow (mkSite "api/resource" "(*Resource).SetBehavior" SkPanic 0)
     (Unreachable "only called from Factory.makeOne with generator args, on the RNode freshly built by generators.MakeConfigMap/MakeSecret: metadata.annotations is absent or a mapping of strings built from a Go map, so SetAnnotations cannot fail");
   mkAllow (mkSite "api/resource" "(*Resource).PrevIds" SkPanic 0)
